@@ -20,7 +20,7 @@ def PC.dead : PC → Bool
 
 /-- after `resolve_forward_refs` returned normally, until the call ends -/
 def PC.parsing : PC → Bool
-  | .frfPos | .frfRet | .pv | .tcIsev | .nested | .nestedPv | .nestedErr | .pvErr => true
+  | .frfPos | .frfRet | .pv | .tcIsev | .nested | .nested2 | .nestedPv | .nestedErr | .pvErr => true
   | _ => false
 
 /-- nothing is left to resolve: only names that do not exist are still listed (function parsers skip them) -/
@@ -107,7 +107,7 @@ def PInv (W : World) (g : G) (h : Th) : Prop :=
   | .pv => Resolved W g ∧ h.uses ≠ [] ∧ parseOutcome W h.uses = target W h
   | .tcIsev => Resolved W g ∧ parseOutcome W h.uses = target W h ∧
       ∃ u us, h.uses = u :: us ∧ W.ref u.fld = true ∧ W.defd u.fld = false
-  | .nested | .nestedPv => Resolved W g ∧ parseOutcome W h.uses = target W h ∧
+  | .nested | .nested2 | .nestedPv => Resolved W g ∧ parseOutcome W h.uses = target W h ∧
       ∃ u us, h.uses = u :: us ∧ (W.ref u.fld = true → W.defd u.fld = true)
   | .nestedErr | .pvErr => Resolved W g ∧ target W h = .perr
   | _ => True
@@ -844,6 +844,30 @@ theorem step_unlock {W : World} {prog : Nat → List Call} {g : G} {k : Nat} {t 
       simp only [PInv]; exact R
     · exact tinv_startParse GI' R T.wrongF T.hist hne hl'
 
+theorem step_chk {W : World} {prog : Nat → List Call} {g : G} {k : Nat} {t : Th} (GI : GInv W g)
+    (T : TInv W prog g k t) (hpc : t.pc = .chkBase ∨ t.pc = .chk) :
+    ThreadOK W prog g (stepChk false g t).1 k (stepChk false g t).2 := by
+  have hcs : t.pc.inCS = false := by rcases hpc with h | h <;> simp [h, PC.inCS]
+  have hl : g.lock ≠ some k := by
+    intro hl; have := T.lockI.mpr hl; simp [hcs] at this
+  have hne : t.calls ≠ [] := T.callNe (by rcases hpc with h | h <;> simp [h]) (by rcases hpc with h | h <;> simp [h])
+  have same : ∀ t', TInv W prog g k t' → ThreadOK W prog g g k t' :=
+    fun t' h => ⟨GI, h, fun _ h => h, Or.inl rfl⟩
+  unfold stepChk
+  split
+  · rename_i he
+    apply same
+    have R : Resolved W g := by
+      intro i hi
+      have : g.pending = [] := by simpa using he
+      simp [this] at hi
+    exact tinv_startParse GI R T.wrongF T.hist hne hl
+  · apply same
+    simp only [Bool.false_eq_true, if_false]
+    refine { alive := rfl, wrongF := T.wrongF, hist := T.hist, callNe := fun _ _ => hne, finE := by simp,
+             lockI := by simp [PC.inCS, hl], hinv := ?_, pinv := trivial }
+    simp [HInv]
+
 theorem step_thread {W : World} {prog : Nat → List Call} {g : G} {k : Nat} {t : Th} (GI : GInv W g)
     (T : TInv W prog g k t) :
     ThreadOK W prog g (stepTh W false k g t).1 k (stepTh W false k g t).2 := by
@@ -870,21 +894,16 @@ theorem step_thread {W : World} {prog : Nat → List Call} {g : G} {k : Nat} {t 
               lockI := by simp [PC.inCS, hl], hinv := trivial, pinv := trivial }
   | chk =>
     simp only [stepTh, hpc]
-    have hl := hncs (by simp [hpc, PC.inCS])
-    have hne : t.calls ≠ [] := T.callNe (by simp [hpc]) (by simp [hpc])
+    exact step_chk GI T (Or.inr hpc)
+  | chkBase =>
+    simp only [stepTh, hpc]
     split
-    · rename_i he
-      apply same
-      have R : Resolved W g := by
-        intro i hi
-        have : g.pending = [] := by simpa using he
-        simp [this] at hi
-      exact tinv_startParse GI R T.wrongF T.hist hne hl
+    · exact step_chk GI T (Or.inl hpc)
     · apply same
-      simp only [Bool.false_eq_true, if_false]
-      refine { alive := rfl, wrongF := T.wrongF, hist := T.hist, callNe := fun _ _ => hne, finE := by simp,
-               lockI := by simp [PC.inCS, hl], hinv := ?_, pinv := trivial }
-      simp [HInv]
+      have hl := hncs (by simp [hpc, PC.inCS])
+      have hne : t.calls ≠ [] := T.callNe (by simp [hpc]) (by simp [hpc])
+      exact { alive := rfl, wrongF := T.wrongF, hist := T.hist, callNe := fun _ _ => hne, finE := by simp,
+              lockI := by simp [PC.inCS, hl], hinv := trivial, pinv := trivial }
   | lock =>
     simp only [stepTh, hpc]
     have hne : t.calls ≠ [] := T.callNe (by simp [hpc]) (by simp [hpc])
@@ -983,6 +1002,19 @@ theorem step_thread {W : World} {prog : Nat → List Call} {g : G} {k : Nat} {t 
     rw [← hu, h0]
     simp [parseOutcome, fails_of_undef hr hd]
   | nested =>
+    have hl := hncs (by simp [hpc, PC.inCS])
+    have hne : t.calls ≠ [] := T.callNe (by simp [hpc]) (by simp [hpc])
+    simp only [PInv, hpc] at P
+    obtain ⟨R, hu, u, us, h0, hrd⟩ := P
+    simp only [stepTh, hpc, h0]
+    apply same
+    refine { alive := rfl, wrongF := T.wrongF, hist := T.hist, callNe := fun _ _ => hne, finE := by simp,
+             lockI := by simp [PC.inCS, hl], hinv := trivial, pinv := ?_ }
+    simp only [PInv]
+    refine ⟨R, ?_, u, us, rfl, hrd⟩
+    show parseOutcome W (u :: us) = target W t
+    rw [← h0]; exact hu
+  | nested2 =>
     have hl := hncs (by simp [hpc, PC.inCS])
     have hne : t.calls ≠ [] := T.callNe (by simp [hpc]) (by simp [hpc])
     simp only [PInv, hpc] at P
